@@ -635,6 +635,19 @@ func genSeq(prop string, seed uint64, run int, p seqProfile, av avoid) *Case {
 		wts := []int{p.wTxn, p.wCreateCol, p.wCreateIndex, p.wDropIndex, p.wCreateSort, p.wDropSort, p.wCreateTrig, p.wDropTrig, p.wRestart, p.wDropCol}
 		switch r.Weighted(wts) {
 		case 0:
+			if cr := NewRng(seed, uint64(run), uint64(i), 106); cr.Chance(0.06) {
+				// one delete through the collection-level convenience call, of a live row or of
+				// an offset/key that holds nothing (own stream)
+				op := Op{Kind: "delete", Target: Target{K: cr.Intn(64)}}
+				if cr.Chance(0.5) {
+					op.Target.Mode = "dead"
+				}
+				if g.hasKey() && cr.Chance(0.5) {
+					op = Op{Kind: "deletekey", Key: g.keys[cr.Intn(len(g.keys))]}
+				}
+				cs.Steps = append(cs.Steps, Step{Kind: "txn", Txn: &TxnProg{Direct: true, Ops: []Op{op}}})
+				continue
+			}
 			cs.Steps = append(cs.Steps, Step{Kind: "txn", Txn: g.genTxn()})
 		case 1:
 			if len(g.cols) >= 24 {
@@ -643,6 +656,12 @@ func genSeq(prop string, seed uint64, run int, p seqProfile, av avoid) *Case {
 			pool := append([]Kind{}, numericKinds...)
 			pool = append(pool, KBool, KString, KEnum, KRecord)
 			k := pool[r.Intn(len(pool))]
+			if dr := NewRng(seed, uint64(run), uint64(i), 105); len(g.cols) > 1 && dr.Chance(0.2) {
+				// a CreateColumn under a name that is taken (any kind): refused, and nothing changes
+				c := ColSpec{Name: g.cols[dr.Intn(len(g.cols))].Name, Kind: pool[dr.Intn(len(pool))]}
+				cs.Steps = append(cs.Steps, Step{Kind: "createcol", Col: &c, Arg: 1})
+				continue
+			}
 			c := ColSpec{Name: g.name("late_" + string(k)), Kind: k}
 			if k == KString && r.Chance(0.5) {
 				c.Merge = "concat"
